@@ -4,7 +4,7 @@
    compare with what the implementation showed.  Definitions only. *)
 From Coq Require Import String ZArith List Bool Arith.
 From PF Require Import Lib.ListX Lib.PySlice Model.Ragged Model.RaggedSpec Model.RaggedRun Model.RaggedCat Model.Frame
-     Model.FrameSpec Gen.Tables.
+     Model.FrameSpec Model.FrameStore Gen.Tables.
 Import ListNotations.
 Open Scope bool_scope.
 
@@ -250,3 +250,27 @@ Definition c08_hyp_cols_met (n : nat) (wms : list (list nat * cmat)) : bool :=
   | Some t => met_eqb t (met_of_cells (concat (map fst wms)) (zip_rows n (map snd wms)))
   | None => false
   end.
+
+(* ------------------------------------------------------------------ *)
+(* Executable forms of the store theorems (Props/C07.v getitem_leaves_caller_index, Props/C08.v
+   cat_col_names_inputs_unchanged): the store model run on the names / index of one case, compared with what the
+   implementation's objects hold AFTER the call. *)
+
+(* one heap object per (part, stype) name list, in order *)
+Definition names_heap (parts : list (list (stype * list string))) : nheap * list ndict :=
+  fold_left (fun hd p =>
+               (fst hd ++ map snd p, snd hd ++ [combine (map fst p) (seq (length (fst hd)) (length p))]))
+            parts ([], []).
+
+Definition c08_store_check (parts after : list (list (stype * list string)))
+           (result : option (list (stype * list string))) : bool :=
+  let hd := names_heap parts in
+  let st := cat_col_names_store (fst hd) (snd hd) in
+  let h' := fst (fst st) in
+  list_eqb names_eqb (map (read_ndict h') (snd hd)) after                 (* the inputs, read after the call *)
+  && forallb (fun a => length (fst hd) <=? a) (snd st)                    (* every write is to a fresh object *)
+  && match result with Some r => names_eqb (read_ndict h' (snd (fst st))) r | None => true end.
+
+Definition c07_index_store_check (l : list Z) (containers n : nat) (after : list Z) : bool :=
+  let r := getitem_index_store [l] 0 n containers in
+  list_eqb Z.eqb (hget [] (fst r) 0) after && forallb (fun a => 1 <=? a) (snd r).
